@@ -26,6 +26,9 @@ type c08Case struct {
 	// multiple of a remembered RTT (it is still raised to the baseline where the algorithm has one)
 	Ref    string `json:"ref,omitempty"`
 	RefPct int    `json:"ref_pct,omitempty"`
+	// EveryPrefix: the pair is tried not only after the whole history but after every one of its prefixes (the history
+	// is cut at every length): whatever internal counter or threshold a particular number of samples trips is met
+	EveryPrefix bool `json:"every_prefix,omitempty"`
 }
 
 func genC08(t *rapid.T) c08Case {
@@ -116,6 +119,30 @@ func genC08(t *rapid.T) c08Case {
 			}
 		}
 	}
+	if rapid.IntRange(0, 39).Draw(t, "climb") == 0 {
+		// a long history of ever slower samples (a dependency degrading for minutes): each RTT a fixed factor above the
+		// one before, for hundreds of samples, so that every average lags behind by more than any fixed ratio; the final
+		// pair is placed relative to the last RTT of that history
+		n := rapid.IntRange(90, 420).Draw(t, "climbLen")
+		g := rapid.SampledFrom([]float64{1.01, 1.02, 1.05, 1.1, 1.3}).Draw(t, "climbFactor")
+		r := float64(rapid.Int64Range(1000, 10_000_000).Draw(t, "climbBase"))
+		idle := rapid.IntRange(0, 2).Draw(t, "climbIdle") == 0
+		c.Prefix = c.Prefix[:0]
+		for i := 0; i < n; i++ {
+			sm := Sample{RTT: int64(r), Rel: "eq"}
+			if idle {
+				sm.Rel, sm.Inf = "third", 0
+			}
+			c.Prefix = append(c.Prefix, sm)
+			if r < 1e15 {
+				r *= g
+			}
+		}
+		c.Ref = "last"
+		c.RefPct = rapid.SampledFrom([]int{10, 25, 50, 90, 100, 110, 150, 199, 200, 201, 300}).Draw(t, "climbRefPct")
+		c.AfterProbe = 0
+		c.EveryPrefix = true
+	}
 	c.Pm = rapid.OneOf(rapid.Just(0), rapid.Just(0), rapid.IntRange(1, 999), rapid.IntRange(1, 150)).Draw(t, "pm")
 	c.DHigh = rapid.OneOf(rapid.Just(int64(1)), rapid.Int64Range(1, 1000), rapid.Int64Range(1, 1_000_000_000)).Draw(t, "dhigh")
 	return c
@@ -131,9 +158,105 @@ func runC08(_ *testing.T, c c08Case) kit.Outcome {
 	probed := false
 	b := buildLimit(c.Cfg, nil)
 	var prevBase int64 // the baseline in force before the most recent change of the baseline
+	// judge tries the pair(s) on copies of the instance as it stands after the samples seen so far
+	judge := func(seen []Sample, full bool) (*kit.Outcome, res, res, int64) {
+		var ref int64
+		if c.Ref != "" && len(seen) > 0 {
+			var sum, mn int64 = 0, seen[0].RTT
+			for _, s := range seen {
+				sum += s.RTT / int64(len(seen))
+				if s.RTT < mn {
+					mn = s.RTT
+				}
+			}
+			switch c.Ref {
+			case "last":
+				ref = seen[len(seen)-1].RTT
+			case "mean":
+				ref = sum
+			default:
+				ref = mn
+			}
+			if ref > 1<<50 {
+				ref = 0
+			}
+		}
+		// pcts: the places (percent of the reference RTT) at which a pair is tried; one history serves all of them,
+		// each pair on its own two copies of the instance
+		pcts := []int{c.RefPct}
+		if ref > 0 && full {
+			pcts = []int{c.RefPct, 25, 50, 75, 100, 125, 150, 200, 250, 300, 400}
+		} else if ref > 0 {
+			pcts = []int{c.RefPct, []int{10, 25, 50, 100, 200}[len(seen)%5]}
+		}
+		run := func(high bool, pct int) res {
+			x := deepClone(b.Inner)
+			b := built{Outer: x, Inner: x}
+			var r res
+			r.pre = b.Outer.EstimatedLimit()
+			r.base, _ = b.noLoad()
+			low := r.base + c.DLow
+			if ref > 0 {
+				if v := ref/100*int64(pct) + ref%100*int64(pct)/100; v >= r.base {
+					low = v
+				}
+			}
+			if c.FromPrev && prevBase > low {
+				low = r.base // rtt_low sits at the current baseline, rtt_high is taken relative to the previous one (below)
+			}
+			if low < 1 && !(c.Cfg.Algo == "gradient2" && c.ZeroLow) {
+				low = 1 // (Gradient2 keeps no baseline: there the lower RTT may be 0, the smallest valid RTT)
+			}
+			rtt := low
+			if high {
+				if c.FromPrev && prevBase > low {
+					low = prevBase
+				}
+				rtt = low/100*int64(c.Mul) + low%100*int64(c.Mul)/100 + c.DHigh
+				if low < 1<<50 {
+					rtt += low * int64(c.Pm) / 1000
+				} else {
+					rtt += low / 1000 * int64(c.Pm)
+				}
+				if rtt <= low { // overflow guard
+					rtt = low + 1
+				}
+			}
+			b.Outer.OnSample(0, rtt, c.Final.inflight(r.pre), c.Final.Drop)
+			r.post = b.Outer.EstimatedLimit()
+			return r
+		}
+		var a, bb res
+		for i, pct := range pcts {
+			x, y := run(false, pct), run(true, pct)
+			if x.pre != y.pre || x.base != y.base {
+				o := kit.Outcome{Harness: "twin instances diverged before the final sample (harness defect)"}
+				return &o, a, bb, ref
+			}
+			if y.post > x.post {
+				o := kit.Viol(c.Cfg.Algo+":rtt-monotone", "same history of %d samples (estimate %d, baseline %d), same in-flight/drop: the higher RTT gave estimate %d, the lower RTT %d (pair placed at %d%% of the %s RTT of the history)", len(seen), x.pre, x.base, y.post, x.post, pct, c.Ref)
+				return &o, a, bb, ref
+			}
+			if i == 0 || x.post != y.post {
+				a, bb = x, y
+			}
+		}
+		return nil, a, bb, ref
+	}
+	fed := 0
+	judgeEach := func(n int) *kit.Outcome {
+		v, _, _, _ := judge(c.Prefix[:n], false)
+		return v
+	}
 	for _, s := range c.Prefix {
+		if c.EveryPrefix && fed >= 2 {
+			if v := judgeEach(fed); v != nil {
+				return *v
+			}
+		}
 		had, _ := b.noLoad()
 		b.Outer.OnSample(s.Start, s.RTT, s.inflight(b.Outer.EstimatedLimit()), s.Drop)
+		fed++
 		now, _ := b.noLoad()
 		if now != had {
 			prevBase = had
@@ -147,82 +270,9 @@ func runC08(_ *testing.T, c c08Case) kit.Outcome {
 			break // right after the baseline dropped (through a faster sample, or through a probe that landed on one)
 		}
 	}
-	var ref int64
-	if c.Ref != "" && len(c.Prefix) > 0 {
-		var sum, mn int64 = 0, c.Prefix[0].RTT
-		for _, s := range c.Prefix {
-			sum += s.RTT / int64(len(c.Prefix))
-			if s.RTT < mn {
-				mn = s.RTT
-			}
-		}
-		switch c.Ref {
-		case "last":
-			ref = c.Prefix[len(c.Prefix)-1].RTT
-		case "mean":
-			ref = sum
-		default:
-			ref = mn
-		}
-		if ref > 1<<50 {
-			ref = 0
-		}
-	}
-	// pcts: the places (percent of the reference RTT) at which a pair is tried; one history serves all of them,
-	// each pair on its own two copies of the instance
-	pcts := []int{c.RefPct}
-	if ref > 0 {
-		pcts = []int{c.RefPct, 25, 50, 75, 100, 125, 150, 200, 250, 300, 400}
-	}
-	run := func(high bool, pct int) res {
-		x := deepClone(b.Inner)
-		b := built{Outer: x, Inner: x}
-		var r res
-		r.pre = b.Outer.EstimatedLimit()
-		r.base, _ = b.noLoad()
-		low := r.base + c.DLow
-		if ref > 0 {
-			if v := ref/100*int64(pct) + ref%100*int64(pct)/100; v >= r.base {
-				low = v
-			}
-		}
-		if c.FromPrev && prevBase > low {
-			low = r.base // rtt_low sits at the current baseline, rtt_high is taken relative to the previous one (below)
-		}
-		if low < 1 && !(c.Cfg.Algo == "gradient2" && c.ZeroLow) {
-			low = 1 // (Gradient2 keeps no baseline: there the lower RTT may be 0, the smallest valid RTT)
-		}
-		rtt := low
-		if high {
-			if c.FromPrev && prevBase > low {
-				low = prevBase
-			}
-			rtt = low/100*int64(c.Mul) + low%100*int64(c.Mul)/100 + c.DHigh
-			if low < 1<<50 {
-				rtt += low * int64(c.Pm) / 1000
-			} else {
-				rtt += low / 1000 * int64(c.Pm)
-			}
-			if rtt <= low { // overflow guard
-				rtt = low + 1
-			}
-		}
-		b.Outer.OnSample(0, rtt, c.Final.inflight(r.pre), c.Final.Drop)
-		r.post = b.Outer.EstimatedLimit()
-		return r
-	}
-	var a, bb res
-	for i, pct := range pcts {
-		x, y := run(false, pct), run(true, pct)
-		if x.pre != y.pre || x.base != y.base {
-			return kit.Outcome{Harness: "twin instances diverged before the final sample (harness defect)"}
-		}
-		if y.post > x.post {
-			return kit.Viol(c.Cfg.Algo+":rtt-monotone", "same history (estimate %d, baseline %d), same in-flight/drop: the higher RTT gave estimate %d, the lower RTT %d (pair placed at %d%% of the %s RTT of the history)", x.pre, x.base, y.post, x.post, pct, c.Ref)
-		}
-		if i == 0 || x.post != y.post {
-			a, bb = x, y
-		}
+	viol, a, bb, ref := judge(c.Prefix[:fed], true)
+	if viol != nil {
+		return *viol
 	}
 	out := kit.Outcome{Labels: []string{"algo:" + c.Cfg.Algo}}
 	if probed {
